@@ -98,6 +98,9 @@ func LoadBaseline(path string) *Baseline {
 
 // CheckRun accumulates the result of one property check.
 type CheckRun struct {
+	// AlsoProps: obligations tagged with these properties count for the run as
+	// well (C09: the server half of the agreement is the C04 / C05 clauses)
+	AlsoProps map[string]bool
 	Prop, Tier string
 	Seed       int64
 	Repo       string
@@ -189,7 +192,7 @@ func (cr *CheckRun) VerifyEncoded(e *FuncEnc, entry string, filter func(o *Oblig
 			keep = filter(o)
 		} else {
 			for _, p := range o.Props {
-				if p == cr.Prop {
+				if p == cr.Prop || cr.AlsoProps[p] {
 					keep = true
 				}
 			}
